@@ -69,6 +69,17 @@ PROPS['C18'] = dict(
     not_covered=['token-level equality between the two modes (K6)', 'the dispatch loop (A-glue)'],
 )
 
+PROPS['C16'] = dict(
+    title='traversal',
+    units=['iter', 'conv', 'derive', 'getstr'],
+    shims=['A-node', 'A-vec'],
+    design='DESIGN.md 3/C16',
+    technique='contract-based deductive verification (Verus) of the verbatim Iter/EventIter bodies, of every From<&..> for RefNodes conversion, of the instantiated derive templates and of get_str/get_str_trim/unwrap_*!; pre-order and balanced-event theorems as lemmas over the step contracts',
+    level_text='Deductive proof for all trees: Iter::next/EventIter::next satisfy their one-step stack contracts, from which lemmas show that iteration yields the node first and then its descendants in child order, that the event view is Enter(n) . events(children) . Leave(n) (balanced, nested) and that its Enter projection is the plain iteration; every tuple/Vec/Option/Box/Paren/List conversion yields its components in field order; the derive template enumerates self.nodes / the enum payload and starts iteration at the node itself; unwrap_node!/unwrap_locate! return the first match; get_str_trim spans the first to the last leaf not under a WhiteSpace node.',
+    level_note='Assumed: RefNode is an opaque handle with finite height; vstd Vec specs and slice::reverse; the derive templates are verified on one stub struct and one stub enum instance (the template text is the same for all 1242 types); macro transcribers are verified with the immediately-invoked closure replaced by its body.',
+    not_covered=['Display/Debug of SyntaxTree', 'impl_ref_node template (RefNode::next / into_iter dispatch per variant)'],
+)
+
 NOT_APPLICABLE = {
     'C02': 'the oracle is the set of Annex A sentences and their production labels; a contract able to state it would restate the 1.3k-production grammar, and PEG ordered choice over it is not a per-function property (DESIGN.md 4)',
     'C12': 'a relation between two parses of two different inputs over every production and trivia assignment (hyperproperty); per-function contracts do not compose to it without a proof about the whole PEG (DESIGN.md 4)',
